@@ -606,3 +606,74 @@ package aml
 //@   modifies *
 //@   loop 1 (!p.r.EOF()) invariant wfR(rd(p))
 //@   at call parseByteList 1: assert window: arg(obj) == connArg && (arg(dataLen) == 0 || (p.r.offset <= p.r.pkgEnd && arg(dataLen) <= p.r.pkgEnd - p.r.offset))
+
+// parseSimpleArg (C11 C12, full contract): a data argument becomes a fresh, detached object
+// whose opcode names the encoding and whose value is the encoded one - the little-endian
+// constant of 1/2/4/8 bytes at the read position, or the string / name bytes, which lie inside
+// the table; any other argument type fails without producing an object.
+//@ pred numArg(t pArgType) = t == pArgTypeByteData || t == pArgTypeWordData || t == pArgTypeDwordData || t == pArgTypeQwordData
+//@ spec numWidth(t pArgType) uint8 = ite(t == pArgTypeByteData, 1, ite(t == pArgTypeWordData, 2, ite(t == pArgTypeDwordData, 4, 8)))
+//@ spec numPrefix(t pArgType) uint16 = ite(t == pArgTypeByteData, pOpBytePrefix, ite(t == pArgTypeWordData, pOpWordPrefix, ite(t == pArgTypeDwordData, pOpDwordPrefix, pOpQwordPrefix)))
+//@ func (p *Parser) parseSimpleArg(argType pArgType) (obj *Object, res parseResult)
+//@   property C11 C12
+//@   requires p != nil && p.objTree != nil && wfTree(p.objTree) && len(p.objTree.objPool) < 0xfffffffe && wfR(rd(p)) && len(p.r.data) <= 0x7fffffff
+//@   modifies p.r.offset, ObjectTree.objPool, ObjectTree.freeListHeadIndex, Object.opcode, Object.infoIndex, Object.tableHandle, Object.parentIndex, Object.prevSiblingIndex, Object.nextSiblingIndex, Object.firstArgIndex, Object.lastArgIndex, Object.value, Object.index, Object.amlOffset, elems(*Object)
+//@   ensures reader: wfR(rd(p)) && sameStream(rd(p)) && p.r.pkgEnd == old(p.r.pkgEnd)
+//@   ensures other: !numArg(argType) && argType != pArgTypeString && argType != pArgTypeNameString ==> obj == nil && res == parseResultFailed
+//@   ensures detached: obj != nil ==> obj.tableHandle == p.tableHandle && obj.parentIndex == InvalidIndex && obj.prevSiblingIndex == InvalidIndex && obj.nextSiblingIndex == InvalidIndex && obj.firstArgIndex == InvalidIndex && obj.lastArgIndex == InvalidIndex && obj.amlOffset == old(p.r.offset)
+//@   ensures num: numArg(argType) ==> obj != nil && obj.opcode == numPrefix(argType) && typeis(obj.value, uint64) && (res == parseResultOk <==> uint64(old(p.r.offset)) + uint64(numWidth(argType)) <= uint64(p.r.pkgEnd)) && (res == parseResultOk ==> p.r.offset == old(p.r.offset) + uint32(numWidth(argType)) && forall(c, uint8, c < 8 ==> uint8(unbox(obj.value, uint64) >> (8 * uint64(c))) == ite(c < numWidth(argType), byteAt(p, old(p.r.offset) + uint32(c)), 0)))
+//@   ensures str: argType == pArgTypeString ==> obj != nil && obj.opcode == pOpStringPrefix && typeis(obj.value, []byte) && inTable(rd(p), unbox(obj.value, []byte)) && (len(unbox(obj.value, []byte)) > 0 ==> dataptr(unbox(obj.value, []byte)) == dataptr(p.r.data) + uintptr(old(p.r.offset))) && (res == parseResultOk ==> p.r.offset == old(p.r.offset) + uint32(len(unbox(obj.value, []byte))) + 1)
+//@   ensures name: argType == pArgTypeNameString ==> obj != nil && obj.opcode == pOpIntNamePath && typeis(obj.value, []byte) && inTable(rd(p), unbox(obj.value, []byte)) && (res == parseResultOk && len(unbox(obj.value, []byte)) > 0 ==> dataptr(unbox(obj.value, []byte)) == dataptr(p.r.data) + uintptr(old(p.r.offset)) && uint64(old(p.r.offset)) + uint64(len(unbox(obj.value, []byte))) == uint64(p.r.offset))
+
+// parseObjectArgs (C11, partial): a constant or string opcode reads its value straight into the
+// object - the little-endian constant of 1/2/4/8 bytes, or the string bytes, at the read
+// position; every other opcode has the arguments of its grammar parsed from slot 0.
+// ShortCircuit is reported as Ok.
+//@ spec constWidth(op uint16) uint8 = ite(op == pOpBytePrefix, 1, ite(op == pOpWordPrefix, 2, ite(op == pOpDwordPrefix, 4, 8)))
+//@ pred constOp(op uint16) = op == pOpBytePrefix || op == pOpWordPrefix || op == pOpDwordPrefix || op == pOpQwordPrefix
+//@ func (p *Parser) parseObjectArgs(curObj *Object) (res parseResult)
+//@   property C11
+//@   partial
+//@   requires p != nil && curObj != nil && wfR(rd(p))
+//@   modifies *
+//@   at call parseArgs 1: assert grammar: !constOp(curObj.opcode) && curObj.opcode != pOpStringPrefix && arg(info) == &pOpcodeTable[curObj.infoIndex] && arg(curObj) == curObj && arg(argOffset) == 0
+//@   ensures const: old(constOp(curObj.opcode)) ==> typeis(curObj.value, uint64) && (res == parseResultOk <==> uint64(old(p.r.offset)) + uint64(old(constWidth(curObj.opcode))) <= uint64(old(p.r.pkgEnd))) && (res == parseResultOk ==> p.r.offset == old(p.r.offset) + uint32(old(constWidth(curObj.opcode))) && forall(c, uint8, c < 8 ==> uint8(unbox(curObj.value, uint64) >> (8 * uint64(c))) == ite(c < old(constWidth(curObj.opcode)), old(byteAt(p, p.r.offset + uint32(c))), 0)))
+//@   ensures str: old(curObj.opcode) == pOpStringPrefix ==> typeis(curObj.value, []byte) && inTable(rd(p), unbox(curObj.value, []byte)) && (len(unbox(curObj.value, []byte)) > 0 ==> dataptr(unbox(curObj.value, []byte)) == dataptr(p.r.data) + uintptr(old(p.r.offset)))
+//@   ensures noshort: res != parseResultShortCircuit
+
+// parseArgs (C11, partial): the slots of the opcode's grammar are parsed in order from argOffset,
+// each with its own argument type, and every object a slot yields is appended to curObj right
+// away (so arguments keep their order); parsing stops at the first slot that is not Ok.
+//@ func (p *Parser) parseArgs(info *pOpcodeInfo, curObj *Object, argOffset uint8) (res parseResult)
+//@   property C11
+//@   partial
+//@   requires p != nil && info != nil
+//@   modifies *, walkDone
+//@   at entry: ghost walkDone = true
+//@   loop 1 (argIndex < argCount) invariant argCount == argc(old(info.argFlags)) && argIndex >= argOffset && (argIndex <= argCount || argOffset > argCount)
+//@   at call parseArg 1: assert slot: arg(info) == info && arg(curObj) == curObj && arg(argType) == argAt(info.argFlags, argIndex)
+//@   at call append 1: assert attach: arg(obj) == curObj && arg(arg) == argObj && argObj != nil
+//@   at exit loop 1: ghost walkDone = argIndex >= argCount || res != parseResultOk
+//@   ensures all: walkDone
+
+// parseArg (C11, partial): dispatch on the argument type of the grammar slot. Data arguments
+// go to parseSimpleArg with the same type; a byte list takes exactly the rest of the current
+// package; a field list is parsed into curObj; a TermArg/DataRefObj is parsed strictly in
+// all-blocks mode and short-circuits (nothing parsed) in the first pass; a package length either
+// becomes the new package end (origin + length) or, for deferred opcodes in the first pass, is
+// remembered in the object and skipped.
+//@ func (error) Error() (s string)
+//@   trusted
+//@ func (p *Parser) parseArg(info *pOpcodeInfo, curObj *Object, argType pArgType) (obj *Object, res parseResult)
+//@   property C11
+//@   partial
+//@   requires p != nil && info != nil && wfR(rd(p))
+//@   modifies *
+//@   at call parseSimpleArg 1: assert data: arg(argType) == argType && (numArg(argType) || argType == pArgTypeString || argType == pArgTypeNameString)
+//@   at call parseByteList 1: assert rest: argType == pArgTypeByteList && arg(obj) == argObj && arg(dataLen) == p.r.pkgEnd - p.r.offset
+//@   at call parseFieldElements 1: assert fields: argType == pArgTypeFieldList && arg(curObj) == curObj
+//@   at call parseStrictTermArg 1: assert strict: (argType == pArgTypeTermArg || argType == pArgTypeDataRefObj) && p.mode == parseModeAllBlocks && arg(curObj) == curObj
+//@   at call pushPkgEnd 1: assert pkg: argType == pArgTypePkgLen && arg(pkgEnd) == origOffset + pkgLen && !(p.mode == parseModeSkipAmbiguousBlocks && info.flags&pOpFlagDeferParsing != 0)
+//@   at call SetOffset 1: assert skip: argType == pArgTypePkgLen && p.mode == parseModeSkipAmbiguousBlocks && info.flags&pOpFlagDeferParsing != 0 && curObj.pkgEnd == origOffset + pkgLen && arg(off) == curObj.pkgEnd
+//@   at call parseTarget 1: assert target: argType == pArgTypeTarget || argType == pArgTypeSimpleName || argType == pArgTypeSuperName || argType == 0 || argType > pArgTypeFieldList
+//@   ensures firstpass: (argType == pArgTypeTermArg || argType == pArgTypeDataRefObj) && old(p.mode) != parseModeAllBlocks ==> obj == nil && res == parseResultShortCircuit
